@@ -1,0 +1,178 @@
+use std::borrow::Borrow;
+use std::collections::hash_map::DefaultHasher;
+use std::hash::{BuildHasher, Hash, Hasher};
+use std::ops::{Deref, DerefMut, Index, Sub};
+use std::sync::atomic::{AtomicU64, Ordering};
+
+pub static SEED: AtomicU64 = AtomicU64::new(0);
+
+pub fn set_seed(seed: u64) {
+    SEED.store(seed, Ordering::SeqCst);
+}
+
+#[derive(Clone, Copy, Debug)]
+pub struct Seeded(u64);
+
+impl Default for Seeded {
+    fn default() -> Self {
+        Seeded(SEED.load(Ordering::SeqCst))
+    }
+}
+
+impl BuildHasher for Seeded {
+    type Hasher = DefaultHasher;
+    fn build_hasher(&self) -> DefaultHasher {
+        let mut h = DefaultHasher::new();
+        h.write_u64(self.0);
+        h
+    }
+}
+
+type StdMap<K, V> = std::collections::HashMap<K, V, Seeded>;
+type StdSet<T> = std::collections::HashSet<T, Seeded>;
+
+#[derive(Clone, Debug)]
+pub struct HashMap<K, V>(StdMap<K, V>);
+#[derive(Clone, Debug)]
+pub struct HashSet<T>(StdSet<T>);
+
+impl<K, V> HashMap<K, V> {
+    pub fn new() -> Self {
+        HashMap(StdMap::default())
+    }
+    pub fn with_capacity(n: usize) -> Self {
+        HashMap(StdMap::with_capacity_and_hasher(n, Seeded::default()))
+    }
+    pub fn into_keys(self) -> std::collections::hash_map::IntoKeys<K, V> {
+        self.0.into_keys()
+    }
+    pub fn into_values(self) -> std::collections::hash_map::IntoValues<K, V> {
+        self.0.into_values()
+    }
+}
+impl<T> HashSet<T> {
+    pub fn new() -> Self {
+        HashSet(StdSet::default())
+    }
+    pub fn with_capacity(n: usize) -> Self {
+        HashSet(StdSet::with_capacity_and_hasher(n, Seeded::default()))
+    }
+}
+impl<K, V> Default for HashMap<K, V> {
+    fn default() -> Self {
+        Self::new()
+    }
+}
+impl<T> Default for HashSet<T> {
+    fn default() -> Self {
+        Self::new()
+    }
+}
+impl<K, V> Deref for HashMap<K, V> {
+    type Target = StdMap<K, V>;
+    fn deref(&self) -> &Self::Target {
+        &self.0
+    }
+}
+impl<K, V> DerefMut for HashMap<K, V> {
+    fn deref_mut(&mut self) -> &mut Self::Target {
+        &mut self.0
+    }
+}
+impl<T> Deref for HashSet<T> {
+    type Target = StdSet<T>;
+    fn deref(&self) -> &Self::Target {
+        &self.0
+    }
+}
+impl<T> DerefMut for HashSet<T> {
+    fn deref_mut(&mut self) -> &mut Self::Target {
+        &mut self.0
+    }
+}
+impl<K: Eq + Hash, V> FromIterator<(K, V)> for HashMap<K, V> {
+    fn from_iter<I: IntoIterator<Item = (K, V)>>(iter: I) -> Self {
+        let mut m = Self::new();
+        m.0.extend(iter);
+        m
+    }
+}
+impl<T: Eq + Hash> FromIterator<T> for HashSet<T> {
+    fn from_iter<I: IntoIterator<Item = T>>(iter: I) -> Self {
+        let mut s = Self::new();
+        s.0.extend(iter);
+        s
+    }
+}
+impl<K, V> IntoIterator for HashMap<K, V> {
+    type Item = (K, V);
+    type IntoIter = std::collections::hash_map::IntoIter<K, V>;
+    fn into_iter(self) -> Self::IntoIter {
+        self.0.into_iter()
+    }
+}
+impl<'a, K, V> IntoIterator for &'a HashMap<K, V> {
+    type Item = (&'a K, &'a V);
+    type IntoIter = std::collections::hash_map::Iter<'a, K, V>;
+    fn into_iter(self) -> Self::IntoIter {
+        self.0.iter()
+    }
+}
+impl<'a, K, V> IntoIterator for &'a mut HashMap<K, V> {
+    type Item = (&'a K, &'a mut V);
+    type IntoIter = std::collections::hash_map::IterMut<'a, K, V>;
+    fn into_iter(self) -> Self::IntoIter {
+        self.0.iter_mut()
+    }
+}
+impl<T> IntoIterator for HashSet<T> {
+    type Item = T;
+    type IntoIter = std::collections::hash_set::IntoIter<T>;
+    fn into_iter(self) -> Self::IntoIter {
+        self.0.into_iter()
+    }
+}
+impl<'a, T> IntoIterator for &'a HashSet<T> {
+    type Item = &'a T;
+    type IntoIter = std::collections::hash_set::Iter<'a, T>;
+    fn into_iter(self) -> Self::IntoIter {
+        self.0.iter()
+    }
+}
+impl<K: Eq + Hash, V> Extend<(K, V)> for HashMap<K, V> {
+    fn extend<I: IntoIterator<Item = (K, V)>>(&mut self, iter: I) {
+        self.0.extend(iter)
+    }
+}
+impl<T: Eq + Hash> Extend<T> for HashSet<T> {
+    fn extend<I: IntoIterator<Item = T>>(&mut self, iter: I) {
+        self.0.extend(iter)
+    }
+}
+impl<'a, T: Eq + Hash + Copy + 'a> Extend<&'a T> for HashSet<T> {
+    fn extend<I: IntoIterator<Item = &'a T>>(&mut self, iter: I) {
+        self.0.extend(iter)
+    }
+}
+impl<K: Eq + Hash + Borrow<Q>, Q: Eq + Hash + ?Sized, V> Index<&Q> for HashMap<K, V> {
+    type Output = V;
+    fn index(&self, key: &Q) -> &V {
+        self.0.get(key).expect("no entry found for key")
+    }
+}
+impl<T: Eq + Hash + Clone> Sub<&HashSet<T>> for &HashSet<T> {
+    type Output = HashSet<T>;
+    fn sub(self, rhs: &HashSet<T>) -> HashSet<T> {
+        self.0.difference(&rhs.0).cloned().collect()
+    }
+}
+impl<K: Eq + Hash, V: PartialEq> PartialEq for HashMap<K, V> {
+    fn eq(&self, other: &Self) -> bool {
+        self.0 == other.0
+    }
+}
+impl<T: Eq + Hash> PartialEq for HashSet<T> {
+    fn eq(&self, other: &Self) -> bool {
+        self.0 == other.0
+    }
+}
